@@ -151,7 +151,7 @@ def run(ctx):
                 ctx.violation("wire-misclassified", {"input": l}, True)
             ctx.coverage["wire_layout"] = json.loads(outw.strip().splitlines()[-1])
     srcs = [os.path.join(vlib.HARNESS, "hrun.c")] + ctx.core_sources(mpi=True)
-    if not ctx.cc("hrun_mpi", srcs, mpi=True):
+    if not ctx.cc("hrun_mpi", srcs, mpi=True, extra=["-Wl,--wrap=stats_take"]):
         return
     rnd = random.Random(ctx.seed * 101 + 7)
     n = 10 if ctx.tier == "quick" else 60
